@@ -101,35 +101,54 @@ def run_verus(force=False):
     os.makedirs(WORK, exist_ok=True)
     wd = tempfile.mkdtemp(prefix='v%d-' % os.getpid(), dir=WORK)
     try:
-        shutil.copytree(REPO_SRC, os.path.join(wd, 'src'))
         contracts = sorted(walk(os.path.join(VERIF, 'contracts'), ('.vx',)))
         mp = os.path.join(wd, 'map.json')
-        wcmd = [sys.executable, os.path.join(VERIF, 'tools', 'weave.py'), os.path.join(wd, 'src'), '--contracts'] + contracts + \
-               ['--extra', 'vx=' + os.path.join(VERIF, 'vxlib', 'vx.rs'), 'vspec=' + os.path.join(VERIF, 'spec', 'vspec.rs'), 'vxl=' + os.path.join(VERIF, 'spec', 'vxl.rs'), 'vck=' + os.path.join(VERIF, 'spec', 'vck.rs'), '--map', mp]
-        wp = subprocess.run(wcmd, capture_output=True, text=True)
-        wmap = json.load(open(mp)) if os.path.exists(mp) else {'fns': [], 'specs': [], 'problems': [{'kind': 'weaver_crash', 'what': wp.stderr[-2000:]}]}
         vcmd = ['verus', 'src/lib.rs', '--crate-type', 'lib', '--crate-name', 'etherparse', '--edition', '2021',
                 '--extern', 'arrayvec=' + rlib, '--cfg', 'feature="std"', '--cfg', 'feature="alloc"',
                 '--multiple-errors', '40', '--output-json', '--time-expanded', '--error-format=json',
                 '--num-threads', str(os.cpu_count() or 8)]
         rl = os.environ.get('VERIF_RLIMIT')
         if rl: vcmd += ['--rlimit', rl]
-        vp = subprocess.run(vcmd, cwd=wd, capture_output=True, text=True)
-        try:
-            out = json.loads(vp.stdout)
-        except Exception:
-            out = None
-        diags = []
-        for line in vp.stderr.split('\n'):
-            line = line.strip()
-            if not line.startswith('{'): continue
-            try: d = json.loads(line)
-            except Exception: continue
-            if d.get('$message_type') != 'diagnostic': continue
-            if d.get('level') not in ('error', 'error: internal compiler error'): continue
-            if d['message'].startswith('aborting due to'): continue
-            diags.append(d)
-        result = build_v_result(wmap, out, diags, vp, wd)
+        demote = {}      # 'fn@file' -> 'assume' | 'bare'
+        retries = []
+        for attempt in range(6):
+            shutil.rmtree(os.path.join(wd, 'src'), ignore_errors=True)
+            if os.path.exists(mp): os.remove(mp)
+            shutil.copytree(REPO_SRC, os.path.join(wd, 'src'))
+            wcmd = [sys.executable, os.path.join(VERIF, 'tools', 'weave.py'), os.path.join(wd, 'src'), '--contracts'] + contracts + \
+                   ['--extra', 'vx=' + os.path.join(VERIF, 'vxlib', 'vx.rs'), 'vspec=' + os.path.join(VERIF, 'spec', 'vspec.rs'), 'vxl=' + os.path.join(VERIF, 'spec', 'vxl.rs'), 'vck=' + os.path.join(VERIF, 'spec', 'vck.rs'), '--map', mp]
+            if demote: wcmd += ['--demote'] + ['%s=%s' % kv for kv in sorted(demote.items())]
+            wp = subprocess.run(wcmd, capture_output=True, text=True)
+            wmap = json.load(open(mp)) if os.path.exists(mp) else {'fns': [], 'specs': [], 'problems': [{'kind': 'weaver_crash', 'what': wp.stderr[-2000:]}]}
+            vp = subprocess.run(vcmd, cwd=wd, capture_output=True, text=True)
+            try:
+                out = json.loads(vp.stdout)
+            except Exception:
+                out = None
+            diags = []
+            for line in vp.stderr.split('\n'):
+                line = line.strip()
+                if not line.startswith('{'): continue
+                try: d = json.loads(line)
+                except Exception: continue
+                if d.get('$message_type') != 'diagnostic': continue
+                if d.get('level') not in ('error', 'error: internal compiler error'): continue
+                if d['message'].startswith('aborting due to'): continue
+                diags.append(d)
+            result = build_v_result(wmap, out, diags, vp, wd)
+            if result['status'] != 'compile_error': break
+            # Verus stops at the first rustc / VIR error and verifies nothing. When the error lies inside a function under contract
+            # (its contract names a parameter that was renamed, the new body uses a construct Verus rejects, ...), take that function
+            # out of the verified set (its contract is kept as an assumption, then dropped) and verify the rest of the crate.
+            owners = sorted({'%s@%s' % (c['fn'], c['fn_file']) for c in result['compile_errors'] if c.get('fn')})
+            step = {}
+            for o in owners:
+                if o not in demote: step[o] = 'assume'
+                elif demote[o] == 'assume': step[o] = 'bare'
+            if not step: break
+            demote.update(step)
+            retries.append({'attempt': attempt, 'demoted': step, 'errors': [c['message'][:200] for c in result['compile_errors'][:3]]})
+        result['demote_retries'] = retries
         result.update(wall_s=round(time.time() - t0, 2), checker_cmd=' '.join(vcmd), key=key, from_cache=False,
                       src_hash=src_hash())
         os.makedirs(cdir, exist_ok=True)
@@ -162,7 +181,7 @@ def build_v_result(wmap, out, diags, vp, wd):
         fns[m['fn'] + '@' + m['file']] = dict(fn=m['fn'], file=m['file'], vname=vname, tags=m['tags'], orig_line=m['orig_line'], orig_end_line=m.get('orig_end_line', m['orig_line']),
                                               woven=(m.get('woven_start'), m.get('woven_end')), clauses=m.get('clauses', []),
                                               rewrites=m.get('rewrites', {}), contract=m.get('contract'), status='unknown', diags=[], time_us=0,
-                                              assumed=m.get('assumed', False))
+                                              assumed=m.get('assumed', False), demoted=m.get('demoted'))
     problems = list(wmap.get('problems', []))
     status = 'ok'
     if out is None:
@@ -203,7 +222,7 @@ def build_v_result(wmap, out, diags, vp, wd):
                 pass
             else:
                 compile_errors.append(rec)
-                if owner: rec['fn'] = fns[owner]['fn']
+                if owner: rec['fn'] = fns[owner]['fn']; rec['fn_file'] = fns[owner]['file']
                 continue
         # clause tag for postconditions
         tags = None
@@ -214,6 +233,10 @@ def build_v_result(wmap, out, diags, vp, wd):
                         if c['kind'] == 'ensures' and c['from'] <= s['line_start'] <= c['to']:
                             tags = [t for t in (c['tag'].split() or [''])[0].split(',') if t] or None
                             rec['clause'] = {'tag': c['tag'], 'text': (s.get('text') or [{}])[0].get('text', '').strip()[:300]}
+                            # the contract of a private helper is proof scaffolding for its callers' postconditions: when it stops
+                            # verifying, the code may merely have been regrouped (rule 3), it is not a violation by itself
+                            if len(c['tag'].split()) > 1 and c['tag'].split()[1].startswith('helper'):
+                                rec['scaffolding'] = True
         if kind == 'precondition':
             for s in d.get('spans', []):
                 if s.get('label') and 'failed precondition' in s['label']:
@@ -427,6 +450,20 @@ PROP_KINDS = {
 }
 
 
+_SRC_CACHE = {}
+def calls(f, g):
+    """does the source text of function f (original tree) mention a call of g's name?"""
+    key = (f['file'], f['orig_line'], f.get('orig_end_line'))
+    if key not in _SRC_CACHE:
+        try:
+            lines = open(os.path.join(REPO_SRC, f["file"])).read().split('\n')
+            _SRC_CACHE[key] = '\n'.join(lines[f['orig_line'] - 1:(f.get('orig_end_line') or f['orig_line'])])
+        except Exception:
+            _SRC_CACHE[key] = ''
+    base = g['fn'].split('::')[-1]
+    return re.search(r'\b%s\s*\(' % re.escape(base), _SRC_CACHE[key]) is not None
+
+
 def decide(prop, tier, seed):
     t0 = time.time()
     spec = U.PROPS[prop]
@@ -464,6 +501,30 @@ def decide(prop, tier, seed):
             undecided.append('specification-side lemma(s) failed: ' + ', '.join(v['spec_failed'][:5]))
         nfn = 0
         for k, f in sorted(mine.items()):
+            if f.get('demoted'):
+                # the function changed shape (anchors of the proof annotations lost, contract no longer compiles): Verus verified
+                # the rest of the crate against its contract but not the function itself. Rule 3: look for a failing input.
+                name = 'V:%s::%s' % (modpath_of(f['file']), f['fn'])
+                obligations += 1
+                paired = [h for h in U.HARNESSES if h['name'] in getattr(U, 'PAIRS', {}).get(f['fn'], [])]
+                found = False
+                if paired:
+                    pr = run_kani(paired)
+                    for h in paired:
+                        r = pr[h['name']]
+                        if r['status'] == 'failed' and not (r.get('unwind_failure') and all('unwinding' in c['desc'] for c in r['failed_checks'])):
+                            found = True
+                            for c in [c for c in r['failed_checks'] if 'unwinding assertion' not in c['desc']][:3]:
+                                violations.append({'obligation': 'K:%s#%s' % (h['name'], re.sub(r'\s+', '_', c['desc'])[:120]), 'engine': 'kani', 'harness': h['name'],
+                                                   'fn': f['fn'], 'file': f['file'], 'orig_line': f['orig_line'],
+                                                   'message': '%s no longer fits its contract annotations (%s); paired harness %s: %s' % (f['fn'], f['demoted'][:160], h['name'], c['desc']),
+                                                   'where': '%s:%s in %s' % (c['file'], c['line'], c['in']), 'playback': r.get('playback'),
+                                                   'cover_playbacks': r.get('cover_playbacks', []),
+                                                   'rendered': r.get('raw_tail', ''), 'input': r.get('playback')})
+                if not found:
+                    undecided.append('%s: not verified, the function changed shape (%s)%s' % (name, f['demoted'][:200],
+                        '; paired harness %s found no failing input' % ','.join(h['name'] for h in paired) if paired else '; no paired harness'))
+                continue
             if f.get('assumed'):
                 trusted.append('assumed contract (external_body, not verified by Verus): %s in %s' % (f['fn'], f['file']))
                 continue
@@ -484,6 +545,13 @@ def decide(prop, tier, seed):
                 continue
             # failed: which diagnostics concern this property?
             relevant = []; scaff = []; other_props = []
+            # a caller is checked against its callees' contracts, not their bodies: when a callee under contract failed only on
+            # scaffolding (e.g. the contract of a private helper no longer describes the regrouped code), this caller's
+            # failures were derived from a stale contract and decide nothing (rule 3 applies to them as well)
+            stale = [g['fn'] for g in v['fns'].values() if g is not f and calls(f, g)
+                     and (g.get('demoted') or (g['status'] == 'failed' and g['diags'] and all(x['scaffolding'] for x in g['diags'])))]
+            if stale:
+                for d in f['diags']: d['scaffolding'] = True; d['stale_callee'] = stale
             for d in f['diags']:
                 if d['scaffolding']:
                     scaff.append(d); continue
